@@ -88,8 +88,7 @@ def main(tier, seed):
     for part in core.pmap(_run, jobs):
         rep.merge(part)
     c = rep.counters
-    if c["is_email"] == 0 or c["free+init"] == 0 or c["errstr.reread"] == 0:
-        raise core.Inconclusive("an operation kind was never observed")
+    rep.require(not (c["is_email"] == 0 or c["free+init"] == 0 or c["errstr.reread"] == 0), "an operation kind was never observed")
     rep.assumptions += ["eav_is_email is issued only once a mode is confirmed (documented contract)",
                         "eav_errstr read after a *failed* eav_setup is judged by C15, not here"]
     return rep.finish(c["is_email"] + c["setup"] + c["errstr.reread"] + c["free+init"], rep.distinct_count,
